@@ -135,7 +135,7 @@ def _concur_setup(case):
             elif exp is None:
                 out.append(("C07/concurrent/invalid-accepted", f"thread {i}: base58check_decode({s!r}) returned {results[i]!r} for an invalid string"))
             elif results[i] != exp:
-                out.append(("C07/concurrent/wrong-payload", f"thread {i}: base58check_decode({s!r}) = {bytes(results[i]).hex()}, "
+                out.append(("C07/concurrent/wrong-payload", f"thread {i}: base58check_decode({s!r}) = {results[i].hex() if isinstance(results[i], (bytes, bytearray)) else repr(results[i])}, "
                             f"expected {exp.hex()} (warm-up decodes before the threads: {warm_strs})"))
         return out
     return calls, warm, judge
